@@ -1,7 +1,7 @@
 (* C18 -- Build output is logged completely, once, and under the right
    target.  Part (a): structured records survive formatting and re-parsing. *)
 From Coq Require Import ZArith List.
-From Redo Require Import Base.Bytes LogRec.Meta LogRec.MetaProofs LogRec.Assemble.
+From Redo Require Import Base.Bytes LogRec.Meta LogRec.MetaProofs LogRec.Assemble LogRec.Catlog LogRec.CatlogProofs.
 
 (* every record a writer may produce (kind without ':' '@' newline, text
    without newline -- it MAY contain "@@ " or "@@REDO:" --, any i32 pid, any
@@ -75,4 +75,69 @@ Print Assumptions C18_fragmentation_independent.
 Example C18_assemble_example :
   assemble nil ((97 :: nil) :: (98 :: 10 :: nil) :: (99 :: nil) :: (100 :: nil) :: (10 :: nil) :: (101 :: nil) :: nil)%N
   = (((97 :: 98 :: 10 :: nil) :: (99 :: 100 :: 10 :: nil) :: nil)%N, (101 :: nil)%N).
+Proof. vm_compute. reflexivity. Qed.
+
+(* ---- part (b), the replay `redo-log -r [-u]` (LogRec/Catlog.v: the recursion
+   of catlog over complete logs).  For every set of logs, every name
+   resolution, with and without -u, whenever the replay ends normally:
+
+   every name shows, of its own log, exactly its plain lines in order followed
+   by its unterminated last line -- once if the name was reached, not at all
+   otherwise *)
+Theorem C18b_replay_lines_once : forall lookup rel flag_u fuel t u,
+  r_status (catlog lookup rel flag_u fuel t nil) = SOk ->
+  own_lines u (r_evs (catlog lookup rel flag_u fuel t nil))
+  = if mem u (r_already (catlog lookup rel flag_u fuel t nil)) then body lookup rel u else nil.
+Proof. exact catlog_lines_once. Qed.
+Check C18b_replay_lines_once : forall lookup rel flag_u fuel t u,
+  r_status (catlog lookup rel flag_u fuel t nil) = SOk ->
+  own_lines u (r_evs (catlog lookup rel flag_u fuel t nil))
+  = if mem u (r_already (catlog lookup rel flag_u fuel t nil)) then body lookup rel u else nil.
+Print Assumptions C18b_replay_lines_once.
+
+(* the same for the whole command, any list of roots however spelled *)
+Theorem C18b_replay_command_lines_once : forall lookup rel flag_u fuel ts u,
+  fst (run_log lookup rel flag_u fuel ts nil) = SOk ->
+  own_lines u (snd (run_log lookup rel flag_u fuel ts nil)) = nil
+  \/ own_lines u (snd (run_log lookup rel flag_u fuel ts nil)) = body lookup rel u.
+Proof. exact run_log_lines_once. Qed.
+Check C18b_replay_command_lines_once : forall lookup rel flag_u fuel ts u,
+  fst (run_log lookup rel flag_u fuel ts nil) = SOk ->
+  own_lines u (snd (run_log lookup rel flag_u fuel ts nil)) = nil
+  \/ own_lines u (snd (run_log lookup rel flag_u fuel ts nil)) = body lookup rel u.
+Print Assumptions C18b_replay_command_lines_once.
+
+(* and every plain line (and unterminated last line) stands under a "do X" or
+   "resumed X" header that names the target whose log it came from *)
+Theorem C18b_replay_attributed : forall lookup rel flag_u fuel ts al cur,
+  fst (run_log lookup rel flag_u fuel ts al) = SOk ->
+  well_attr cur (snd (run_log lookup rel flag_u fuel ts al)).
+Proof. exact run_log_attributed. Qed.
+Check C18b_replay_attributed : forall lookup rel flag_u fuel ts al cur,
+  fst (run_log lookup rel flag_u fuel ts al) = SOk ->
+  well_attr cur (snd (run_log lookup rel flag_u fuel ts al)).
+Print Assumptions C18b_replay_attributed.
+
+(* the follower, whatever pieces it reads while the log grows, sees the lines
+   of the static model *)
+Theorem C18b_follow_equals_static : forall cs,
+  Forall piece_ok cs -> assemble nil cs = split_lines (concat cs).
+Proof. exact follow_equals_static. Qed.
+Check C18b_follow_equals_static : forall cs,
+  Forall piece_ok cs -> assemble nil cs = split_lines (concat cs).
+Print Assumptions C18b_follow_equals_static.
+
+(* non-vacuity: t prints A, asks for the silent c (unchanged, shown under -u),
+   prints B and ends with an unterminated "z"; c's log is empty.  The replay
+   ends normally; B and z stand under "resumed t" (before the repairs in /repo
+   they stood under "do c"). *)
+Example C18b_example :
+  let t := (116 :: nil)%N in let c := (99 :: nil)%N in
+  let rec_unch := format {| kind := k_unchanged; pid := 7%Z; ts := 15000%N; text := c |} in
+  let logt := ((65 :: 10 :: nil) ++ rec_unch ++ (10 :: 66 :: 10 :: 122 :: nil))%N in
+  let lookup := fun n => if bytes_eqb n t then KLog logt else if bytes_eqb n c then KLog nil else KUnknown in
+  let rel := fun (_ : bytes) (x : bytes) => x in
+  run_log lookup rel true 5 (t :: nil) nil
+  = (SOk, EvMeta k_do t :: EvText t (65 :: 10 :: nil)%N :: EvMeta k_do c :: EvMeta k_resumed t
+          :: EvText t (66 :: 10 :: nil)%N :: EvTail t (122 :: 10 :: nil)%N :: nil).
 Proof. vm_compute. reflexivity. Qed.
